@@ -191,6 +191,21 @@ func (w *World) lastStoresVia(f *ssa.Function, ptr ssa.Value, field string, sel 
 				if ld, isLd := st.Val.(*ssa.UnOp); isLd && ld.Op == token.MUL {
 					return set{strings.TrimPrefix(w.exprOf(f, ld.X).String(), "&") + "." + field: true}
 				}
+				// nc := helper(…) returning a Context by value: what the helper stores, else the copied context's
+				if call, isCall := st.Val.(*ssa.Call); isCall {
+					if inner, src, prec := w.ctxValueCtor(call); inner != nil {
+						if field == "Precision" && prec != nil {
+							return set{w.exprOf(f, prec).String(): true}
+						}
+						if v, stored := inner.Consts[field]; stored && v != "" {
+							return set{v: true}
+						}
+						if _, stored := inner.Consts[field]; !stored && !(field == "Precision" && inner.Prec != nil) {
+							return set{strings.TrimPrefix(w.exprOf(f, src).String(), "&") + "." + field: true}
+						}
+						return set{"<unknown>": true}
+					}
+				}
 			}
 		}
 		if x == ptr.(ssa.Instruction) {
@@ -679,9 +694,10 @@ func ruleOverflowReports(w *World, r *RuleResult) {
 		f := w.fn(fn)
 		// the negative edge: sign(v) < 0 where v is a non-destination operand of the function or a local
 		// (its copy); written by shape, not by the names of locals
-		negEdge := func(cond ssa.Value) bool {
+		negEdge := func(cond ssa.Value, val bool) bool {
 			bo, isB := cond.(*ssa.BinOp)
-			if !isB || bo.Op != token.LSS {
+			// sign < 0 holds, or sign >= 0 does not
+			if !isB || !(bo.Op == token.LSS && val || bo.Op == token.GEQ && !val) {
 				return false
 			}
 			k, isK := bo.Y.(*ssa.Const)
@@ -709,7 +725,7 @@ func ruleOverflowReports(w *World, r *RuleResult) {
 		for _, c := range cs {
 			ok := false
 			for _, g := range guardsAt(c.Block()) {
-				if g.Val && negEdge(g.Cond) {
+				if negEdge(g.Cond, g.Val) {
 					ok = true
 				}
 			}
@@ -725,7 +741,7 @@ func ruleOverflowReports(w *World, r *RuleResult) {
 	if f := w.fn("(*Context).Exp"); f != nil {
 		key := "(*Context).Exp | early overflow only beyond 23·precision"
 		cc := w.conditionConsts()
-		ok := false
+		ok := true
 		n := 0
 		for _, u := range w.condConstUses(f) {
 			if u.bits&cc["Overflow"] == 0 || u.bits >= 1<<12 {
@@ -735,6 +751,7 @@ func ruleOverflowReports(w *World, r *RuleResult) {
 				continue
 			}
 			n++
+			siteOK := false
 			for _, g := range guardsAt(u.site.Block()) {
 				bo, isB := g.Cond.(*ssa.BinOp)
 				if !isB || !g.Val || bo.Op != token.GTR {
@@ -750,12 +767,15 @@ func ruleOverflowReports(w *World, r *RuleResult) {
 						}
 					}
 					if strings.Contains(all, "* 23") || strings.Contains(s, "23") {
-						ok = true
+						siteOK = true
 					}
 				}
 			}
+			if !siteOK {
+				ok = false
+			}
 		}
-		if ok && n == 1 {
+		if ok && n >= 1 {
 			r.ok(key, w.pos(f.Pos()), "Overflow is or-ed only under |x|.Cmp(23·cp) > 0", true)
 		} else {
 			r.bad(key, w.pos(f.Pos()), "Exp's early overflow/underflow return is not confined to |x| > 23·precision")
